@@ -40,7 +40,38 @@ func genSchemaCase(rng *rand.Rand, idx int, tier string) Case {
 	return c
 }
 
+// precheckShape: the Swagger-specific pre-checks of the object validator (object_validator.go:86-158) look at the
+// last two segments of the validator's path and at "type"/"items" members of the *instance*; short paths and
+// segment names example(s)/default/properties are where their index arithmetic can go wrong
+func precheckShape(rng *rand.Rand) Case {
+	names := []string{"example", "examples", "default", "properties", "x"}
+	inner := map[string]interface{}{"type": "object"}
+	if rng.Intn(3) == 0 {
+		inner = map[string]interface{}{}
+	}
+	obj := map[string]interface{}{"items": map[string]interface{}{"type": "string"}}
+	switch rng.Intn(3) {
+	case 0:
+		obj["type"] = "array"
+	case 1:
+		obj["type"] = "string"
+	}
+	n1 := names[rng.Intn(len(names))]
+	schema := map[string]interface{}{"properties": map[string]interface{}{n1: inner}}
+	var data interface{} = map[string]interface{}{n1: obj}
+	if rng.Intn(2) == 0 { // one level deeper
+		n2 := names[rng.Intn(len(names))]
+		schema = map[string]interface{}{"properties": map[string]interface{}{n2: map[string]interface{}{"type": "object", "properties": map[string]interface{}{n1: inner}}}}
+		data = map[string]interface{}{n2: map[string]interface{}{n1: obj}}
+	}
+	path := []string{"", "", "example", "a"}[rng.Intn(4)]
+	return Case{"schema": schema, "data": data, "path": path, "opts": map[string]interface{}{"swagger": rng.Intn(4) != 0, "number": false}}
+}
+
 func genSchemaMalCase(rng *rand.Rand, idx int, tier string) Case {
+	if rng.Intn(25) == 0 {
+		return precheckShape(rng)
+	}
 	g := &sgen{rng: rng, maxDepth: 2, mal: true}
 	s := g.rootSchema()
 	v := g.instance(s)
